@@ -43,7 +43,10 @@ def handler(case):
     import warnings
     warnings.simplefilter("ignore")
     edit = case.get("edit")          # {"after": j, "name": n, "weight": w}: in the LAST step, after the j-th yielded name, the user changes a weight
+    te = case.get("table_edit")       # the user changes a move's interval between two steps (MoveStorage fields are public)
     for k, st in enumerate(mc.irun(case["steps"])):
+        if te and k == te["step"] and f"m{te['name']}" in mc.moves:
+            mc.moves[f"m{te['name']}"].interval = te["interval"]
         mark = len(log)
         names, slot_marks = [], []
         for j, n in enumerate(st):      # the step generator is consumed lazily, as a user loop over irun() does
